@@ -10,12 +10,13 @@ storage server, C22); repair itself is download (C02) followed by `upload` with 
 `VCfg.asIs` is the verifier as it was before the fix, `VCfg.repaired` the verifier as it is in /repo now (fix fb3513d =
 fixes/C45-verify-block-root.diff: the block hash tree root is taken from the validated share hash leaf).
 
-As built: 18 theorems (one `_partial`) — `verified_good_implies_all_valid` (+ `verified_good_counterexample` for the old verifier),
+As built: 19 theorems (one `_partial`) — `verified_good_implies_all_valid` (+ `verified_good_counterexample` for the old verifier),
 `healthy_iff_N_good`, `recoverable_iff_k_good`, `corrupt_shares_listed`, `noverify_believes_servers`,
 `recoverable_unhealthy_repair_attempted`, `repair_uses_original_parameters`, `repair_regenerates_identical_shares`,
 `post_repair_healthy_implies_N_good`, `repair_never_alters_good_shares`, `repair_output_is_encoder_output`,
 `repaired_share_passes_ct_stage`, `repaired_share_passes_block_hash_stage`, `repaired_share_passes_share_hash_stage`,
-`repaired_share_block_accepted`, `repaired_share_block_fetch_chain`, `readable_from_repaired_shares_partial`. Further model parts: `checkServerShares` /
+`repaired_share_block_accepted`, `repaired_share_block_fetch_chain`, `validation_stages_keep_trees_closed`,
+`readable_from_repaired_shares_partial`. Further model parts: `checkServerShares` /
 `checkNoVerify`, `repairDecision`, `repairParams`, `gatherRepairResults`, `corruptLocators`. Driver lean/Drv/C45.lean
 (`veup`, `fmt`, `fmtlists`, `noverify`, `verify`, `repairdecision`, `repairparams`, `postrepair`, `repair`) ties each
 of them to the code. Only partially proved (monitor end to end): that the file can be read from the repaired shares alone. -/
@@ -27,7 +28,7 @@ of them to the code. Only partially proved (monitor end to end): that the file c
 | a check is healthy exactly when N distinct good shares are found | `healthy_iff_N_good` (+ the good list is duplicate-free and is exactly the share numbers some server's result lists) |
 | … recoverable exactly when at least k are | `recoverable_iff_k_good` |
 | repair using only the verify-cap produces shares that validate under the original read-cap | `repair_uses_original_parameters` (k, N from the cap, segment size from the VALIDATED UEB — seed C45-b) + `repair_regenerates_identical_shares` (a completed repair read re-publishes exactly the original cap, UEB, trees and blocks); neither uses the read key |
-| … so the file can be read from the repaired shares alone | PARTIAL: `repair_output_is_encoder_output` (repaired shares = the uploader's shares, parameters included), `repaired_share_passes_share_hash_stage`, `repaired_share_passes_block_hash_stage`, `repaired_share_passes_ct_stage`, `repaired_share_block_accepted` (completeness of every validation stage of `Share._satisfy_*` for such shares: share hash chain, block hash tree, crypttext hash tree, data block; C35 `tryBody_complete`), `repaired_share_block_fetch_chain` (block-hash stage then data stage chained on the node the first leaves behind; `Closed` and `TreeOK` are stage invariants), `readable_from_repaired_shares_partial` (one share set; a read over it writes only a prefix of the file and `done` ⇒ the file). Missing links named there: composing all four stage theorems along one whole `satisfy` run and over a fetch history (the two block-tree stages are chained: `repaired_share_block_fetch_chain`; closedness is a proved stage invariant for the block trees — `stageBlockHashes_keeps_closed`, `stageData_keeps_closed` — and still a hypothesis for the share and crypttext trees), decoding (`Tahoe.C36.immutable_any_k_blocks_decode_rs256`), termination (C03/C46); end to end this clause stays with the monitor (read from repaired shares only) |
+| … so the file can be read from the repaired shares alone | PARTIAL: `repair_output_is_encoder_output` (repaired shares = the uploader's shares, parameters included), `repaired_share_passes_share_hash_stage`, `repaired_share_passes_block_hash_stage`, `repaired_share_passes_ct_stage`, `repaired_share_block_accepted` (completeness of every validation stage of `Share._satisfy_*` for such shares: share hash chain, block hash tree, crypttext hash tree, data block; C35 `tryBody_complete`), `repaired_share_block_fetch_chain` (block-hash stage then data stage chained on the node the first leaves behind), `validation_stages_keep_trees_closed` (`Closed`, the premise of the four acceptance theorems, is an invariant of every tree-writing stage whatever the share answers; `TreeOK` / `NodeInv` already are), `readable_from_repaired_shares_partial` (one share set; a read over it writes only a prefix of the file and `done` ⇒ the file). Missing links named there: composing all four stage theorems along one whole `satisfy` run and over a fetch history (the two block-tree stages are chained: `repaired_share_block_fetch_chain`; closedness of every tree is a proved stage invariant — `validation_stages_keep_trees_closed` — so what is missing is only the bookkeeping that threads the four acceptance theorems through `runStages` and the per-segment history), decoding (`Tahoe.C36.immutable_any_k_blocks_decode_rs256`), termination (C03/C46); end to end this clause stays with the monitor (read from repaired shares only) |
 | … and it never alters existing good shares | `repair_never_alters_good_shares` (abstract storage behaviour; refinement by the storage server is C22) |
 | a recoverable, unhealthy file gets a repair attempt, whatever the number of servers holding the good shares (seed C45-d) | `recoverable_unhealthy_repair_attempted` |
 | the post-repair results describe the grid after the repair (seed C45-c) | `post_repair_healthy_implies_N_good` |
@@ -342,6 +343,39 @@ theorem repaired_share_block_fetch_chain (E : Env H) (cfg : Cfg) (prm : Params) 
   exact repaired_share_block_accepted E cfg prm ser encode ct sz S Prep hrep pick shnum segnum v _ u
     (by rw [hk1]; exact hk) hok1.2.1 hok1.2.2.1 hcl1 hseg (fun i hi => hfull i (Or.inl hi)) hblock hsize
 
+/-- **validation_stages_keep_trees_closed**: the hypothesis `Closed` of the four acceptance theorems is an invariant of
+    every stage of `Share._get_satisfaction` that writes a hash tree, whatever the share answers (accepted batches
+    fill every parent, rejected batches are rolled back): `_satisfy_UEB` (roots stored), `_satisfy_share_hash_tree`,
+    `set_block_hash_root`, `_satisfy_block_hash_tree`, `_satisfy_ciphertext_hash_tree`, `_satisfy_data_block`. A fresh
+    node's trees are closed (`newTree_closed`), so every tree a download node ever holds is closed. -/
+theorem validation_stages_keep_trees_closed (E : Env H) (cfg : Cfg) (prm : Params) (ser : UEB H → Bytes)
+    (encode : Nat → Bytes → Nat → Bytes) (ct : Bytes) (sz : Sizes) (S : Setup E cfg prm ser encode ct sz)
+    (pick : List Nat → Nat) (cap : Cap H) (shnum segnum : Nat) (v : View H) (nd : Node H) :
+    (Closed nd.shareTree → Closed nd.ctTree →
+      Closed (stageUEB E cap v nd).2.shareTree ∧ Closed (stageUEB E cap v nd).2.ctTree) ∧
+    (Closed nd.shareTree → Closed (stageShareTree E cfg pick cap shnum v nd).2.shareTree) ∧
+    (nd.ctTree.length % 2 = 1 → Closed nd.ctTree → Closed (stageCtHashes E cfg pick segnum v nd).2.ctTree) ∧
+    (∀ u, nd.known = some (u, sz) → Closed (nd.blockTree shnum sz.numSegs) →
+      Closed ((stageBlockRoot E cfg pick cap shnum nd).2.blockTree shnum sz.numSegs) ∧
+      ∀ T, TreeOK E.ops T (nd.blockTree shnum sz.numSegs) →
+        Closed ((stageBlockHashes E cfg pick shnum segnum v nd).2.blockTree shnum sz.numSegs) ∧
+        (segnum < sz.numSegs → T.length = 2 * roundupPow2 sz.numSegs - 1 →
+          Closed ((stageData E cfg pick shnum segnum v nd).2.blockTree shnum sz.numSegs))) := by
+  refine ⟨fun hs hc => stageUEB_keeps_closed E cap v nd hs hc,
+    fun hs => stageShareTree_keeps_closed S.strict pick cap shnum v nd hs,
+    fun hodd hc => stageCtHashes_keeps_closed S.strict pick segnum v nd hodd hc, ?_⟩
+  intro u hk hcl
+  refine ⟨stageBlockRoot_keeps_closed S.strict pick cap shnum nd hk hcl, ?_⟩
+  intro T hok
+  exact ⟨stageBlockHashes_keeps_closed S.strict pick shnum segnum v nd hk hok hcl,
+    fun hseg hlen => stageData_keeps_closed S.strict pick shnum segnum v nd hk hok hseg hlen hcl⟩
+
+/-- a fresh download node satisfies the premises: all its trees are closed -/
+example (cap : Cap H) : Closed (Node.init H cap).shareTree ∧ Closed (Node.init H cap).ctTree ∧
+    ∀ sh m, Closed ((Node.init H cap).blockTree sh m) :=
+  ⟨newTree_closed _, by intro i _ h; exact absurd (get_of_ge (by simp [Node.init])) h,
+   fun sh m => by simp [Node.blockTree, Node.init]; exact newTree_closed _⟩
+
 /-- **readable_from_repaired_shares_partial**.  Full statement (NOT proved): after a repair that reports success,
     every read that is offered any k distinct shares out of the old and the repaired ones ends `done` with the
     file's bytes.  Proved here: (1) old and repaired shares are one share set of the original publication
@@ -351,8 +385,8 @@ theorem repaired_share_block_fetch_chain (E : Env H) (cfg : Cfg) (prm : Params) 
     theorem elsewhere that is not yet instantiated on this model: chaining the four per-stage acceptance theorems
     (`repaired_share_passes_share_hash_stage`, `repaired_share_passes_block_hash_stage`,
     `repaired_share_passes_ct_stage`, `repaired_share_block_accepted`) along one whole fetch (the block-hash and data stages are chained in
-    `repaired_share_block_fetch_chain`; closedness is a proved stage invariant for the block trees, not yet for the
-    share and crypttext trees); decoding of any k genuine blocks (`Tahoe.C36.immutable_any_k_blocks_decode_rs256`,
+    `repaired_share_block_fetch_chain`; closedness of every tree is a proved stage invariant,
+    `validation_stages_keep_trees_closed`; the threading through `runStages` over a history is what is left); decoding of any k genuine blocks (`Tahoe.C36.immutable_any_k_blocks_decode_rs256`,
     `rs256_mds`, for `decode` := zfec); termination with k good shares (C03 / C46). -/
 theorem readable_from_repaired_shares_partial (E : Env H) (cfg : Cfg) (prm : Params) (ser : UEB H → Bytes)
     (encode : Nat → Bytes → Nat → Bytes) (ct : Bytes) (sz : Sizes) (S : Setup E cfg prm ser encode ct sz)
